@@ -270,11 +270,21 @@ func checkPipeCase(res *Result, pc *pipeCase, alpha []absLine, rng *rand.Rand, f
 	for _, d := range deliveries(lens, rng, full) {
 		src := newSource(data, d.plan, d.dflt, nil, d.withData)
 		obs := runStream(src, opts, len(lines)+3)
-		judgePipe(res, pc, lines, data, obs, src, tag+"/"+d.name)
+		judgePipe(res, pc, pc.Calls, lines, data, obs, src, tag+"/"+d.name, alphaSnapCmp)
 	}
 }
 
-func judgePipe(res *Result, pc *pipeCase, lines [][]byte, data []byte, obs []callObs, src *source, tag string) {
+// snapCmp compares the snapshot of call i with the specification's; it returns
+// the property the comparison belongs to.
+type snapCmp func(i int, c *specCall, o *callObs) (ok bool, prop string, want, got interface{})
+
+func alphaSnapCmp(i int, c *specCall, o *callObs) (bool, string, interface{}, interface{}) {
+	want := normSnap(c.Snap)
+	got := projSnap(o.Snap)
+	return reflect.DeepEqual(want, got), "C07", want, got
+}
+
+func judgePipe(res *Result, pc interface{}, calls []specCall, lines [][]byte, data []byte, obs []callObs, src *source, tag string, cmp snapCmp) {
 	mk := func(prop, aspect, what string, exp, got interface{}) Finding {
 		return Finding{Property: prop, Aspect: aspect, What: tag + ": " + what, Case: pc, Input: data, Expected: exp, Observed: got}
 	}
@@ -289,15 +299,15 @@ func judgePipe(res *Result, pc *pipeCase, lines [][]byte, data []byte, obs []cal
 		res.violation(mk("C03", "hang", "read budget exhausted", nil, src.reads))
 		return
 	}
-	if len(obs) != len(pc.Calls) {
-		res.violation(mk("C07", "calls", fmt.Sprintf("number of calls: spec %d, code %d", len(pc.Calls), len(obs)), len(pc.Calls), describe(obs)))
+	if len(obs) != len(calls) {
+		res.violation(mk("C07", "calls", fmt.Sprintf("number of calls: spec %d, code %d", len(calls), len(obs)), len(calls), describe(obs)))
 		// conservation can still be judged on the flattened stream below
 	}
 	// C02: flattened byte conservation, with the named deviations.
 	var fInt, fReal, fObs []byte
 	usedK1, usedK2 := false, false
-	for i := range pc.Calls {
-		c := &pc.Calls[i]
+	for i := range calls {
+		c := &calls[i]
 		fInt = append(fInt, expectCall(lines, c, false, false).fwd...)
 		fReal = append(fReal, expectCall(lines, c, true, true).fwd...)
 		if len(c.K1) != 0 {
@@ -310,9 +320,9 @@ func judgePipe(res *Result, pc *pipeCase, lines [][]byte, data []byte, obs []cal
 	for i := range obs {
 		fObs = append(fObs, obs[i].Fwd...)
 	}
-	last := len(pc.Calls) - 1
-	tInt := expectCall(lines, &pc.Calls[last], false, false).rest
-	tReal := expectCall(lines, &pc.Calls[last], true, true).rest
+	last := len(calls) - 1
+	tInt := expectCall(lines, &calls[last], false, false).rest
+	tReal := expectCall(lines, &calls[last], true, true).rest
 	var tObs []byte
 	if len(obs) > 0 {
 		tObs = obs[len(obs)-1].Rest
@@ -320,10 +330,10 @@ func judgePipe(res *Result, pc *pipeCase, lines [][]byte, data []byte, obs []cal
 	okBytes := false
 	for _, v := range [][2]bool{{false, false}, {true, false}, {false, true}, {true, true}} {
 		var f, t []byte
-		for i := range pc.Calls {
-			f = append(f, expectCall(lines, &pc.Calls[i], v[0], v[1]).fwd...)
+		for i := range calls {
+			f = append(f, expectCall(lines, &calls[i], v[0], v[1]).fwd...)
 		}
-		t = expectCall(lines, &pc.Calls[last], v[0], v[1]).rest
+		t = expectCall(lines, &calls[last], v[0], v[1]).rest
 		if bytes.Equal(f, fObs) && bytes.Equal(t, tObs) {
 			okBytes = true
 			if v[0] && usedK1 {
@@ -344,20 +354,18 @@ func judgePipe(res *Result, pc *pipeCase, lines [][]byte, data []byte, obs []cal
 	}
 	// C07: per call delimitation, snapshots, error class, remainder.
 	n := len(obs)
-	if len(pc.Calls) < n {
-		n = len(pc.Calls)
+	if len(calls) < n {
+		n = len(calls)
 	}
 	for i := 0; i < n; i++ {
-		c := &pc.Calls[i]
+		c := &calls[i]
 		o := &obs[i]
 		if !errOK(c.Err, o.ErrClass) {
 			res.violation(mk("C07", "err", fmt.Sprintf("call %d: error class: spec %q, code %q (%v)", i+1, c.Err, o.ErrClass, o.Err), c.Err, o.ErrClass))
 			return
 		}
-		want := normSnap(c.Snap)
-		got := projSnap(o.Snap)
-		if !reflect.DeepEqual(want, got) {
-			res.violation(mk("C07", "snapshot", fmt.Sprintf("call %d: snapshot differs", i+1), want, got))
+		if ok, prop, want, got := cmp(i, c, o); !ok {
+			res.violation(mk(prop, "snapshot", fmt.Sprintf("call %d: snapshot differs", i+1), want, got))
 			return
 		}
 		okCall := false
